@@ -101,6 +101,11 @@ class SVBackendImpl:
             self.state = state_type(
                 config.initial_state.data.clone(), gpu=self.resolved_gpu
             )
+            # observables are defined on the normalised state (emu-mps normalises too)
+            raw = self.state.data
+            self.state.data = raw / (
+                torch.trace(raw) if raw.ndim == 2 else torch.linalg.vector_norm(raw)
+            )
         else:
             self.state = state_type.make(self.nqubits, gpu=self.resolved_gpu)
 
